@@ -269,6 +269,20 @@ class C15(core.Check):
         if ('prog:overlapping-vocabulary' in case['tags'] or 'prog:tilde-directory' in case['tags']) and all(o_.get('exit') != 0 for o_ in outcomes):
             # these directed programs are meant to assemble: agreeing failures would show nothing
             return [core.inconclusive('directed program does not assemble', {'stderr': (list(base.values())[0].get('stderr') or '')[-300:]})]
+        # the same inputs named relatively and absolutely: same verdict, same image
+        for f in FORMATS:
+            b_, a_ = base.get(f), base.get('abs/' + f)
+            if b_ is None or a_ is None or b_.get('timed_out') or a_.get('timed_out'):
+                continue
+            if b_.get('exit') != a_.get('exit'):
+                vs.append(core.violated('exit-status-differs/relative-vs-absolute-paths', {'relative_exit': b_.get('exit'), 'absolute_exit': a_.get('exit'),
+                                                                                         'stderr_relative': (b_.get('stderr') or '')[-300:],
+                                                                                         'stderr_absolute': (a_.get('stderr') or '')[-300:]},
+                                        buckets=['var:path-spelling']))
+            elif (b_.get('files') or {}).get('out.bin') != (a_.get('files') or {}).get('out.bin'):
+                vs.append(core.violated('image-differs/relative-vs-absolute-paths', {'format': f}, buckets=['var:path-spelling']))
+            else:
+                vs.append(core.held(buckets=['var:path-spelling']))
         for (tag, f, hs), o, r in zip(labels, outcomes, case['runs']):
             if tag.startswith('baseline'):
                 continue
